@@ -715,6 +715,10 @@ func (db *RockDB) SetRange(ts int64, rawKey []byte, offset int, value []byte) (i
 	if realV == nil && !keyInfo.Expired {
 		db.IncrTableKeyCount(keyInfo.Table, 1, db.wb)
 	}
+	if keyInfo.Expired {
+		// the expired value is dead, begin with the empty value as incr does
+		realV = nil
+	}
 	extra := offset + len(value) - len(realV)
 	if extra > 0 {
 		realV = append(realV, make([]byte, extra)...)
@@ -797,6 +801,10 @@ func (db *RockDB) Append(ts int64, rawKey []byte, value []byte) (int64, error) {
 	}
 	if realV == nil && !keyInfo.Expired {
 		db.IncrTableKeyCount(keyInfo.Table, 1, db.wb)
+	}
+	if keyInfo.Expired {
+		// the expired value is dead, begin with the empty value as incr does
+		realV = nil
 	}
 
 	newLen := len(realV) + len(value)
